@@ -33,6 +33,9 @@ META = {
             "Sec-WebSocket-Accept value is a parameter of the handshake model), random mask key generation (any key).",
 }
 
+# ---- additions of the translator / tie session (appended to the manifest texts)
+META["text"] += " GenTie.v: the upgrade-response cap of the model is the header's current value."
+
 
 # ------------------------------------------------------------------ helpers
 
